@@ -245,8 +245,8 @@ func runR011(c *core.Ctx) {
 					runeWalks = append(runeWalks, "range over the string "+core.ExprString(x.X))
 				}
 			case *ast.CallExpr:
-				if f := core.Callee(inf, x); f != nil && f.Pkg() != nil && f.Pkg().Path() == "unicode/utf8" && strings.HasPrefix(f.Name(), "DecodeRune") {
-					runeWalks = append(runeWalks, "utf8."+f.Name())
+				if f := core.Callee(inf, x); f != nil && f.Pkg() != nil && f.Pkg().Path() == "unicode/utf8" && strings.HasPrefix(core.NameOf(f), "DecodeRune") {
+					runeWalks = append(runeWalks, "utf8."+core.NameOf(f))
 				}
 				if tv, ok := inf.Types[x.Fun]; ok && tv.IsType() {
 					if sl, ok := tv.Type.Underlying().(*types.Slice); ok && types.Identical(sl.Elem(), types.Typ[types.Rune]) {
@@ -356,13 +356,13 @@ func runR011(c *core.Ctx) {
 					}
 				}
 				if id, ok := x.Key.(*ast.Ident); ok && id.Name == "stringEscaper" {
-					if o := core.ObjOf(inf, x.Value); o != nil && o.Name() == wantCallee {
+					if o := core.ObjOf(inf, x.Value); o != nil && core.NameOf(o) == wantCallee {
 						found = true
 					}
 				}
 			case *ast.CallExpr:
 				for _, a := range x.Args {
-					if o := core.ObjOf(inf, a); o != nil && (o.Name() == wantCallee) {
+					if o := core.ObjOf(inf, a); o != nil && (core.NameOf(o) == wantCallee) {
 						found = true
 					}
 				}
@@ -452,7 +452,7 @@ func runR013(c *core.Ctx) {
 				}
 				name := ""
 				if f != nil {
-					name = f.Name()
+					name = core.NameOf(f)
 				}
 				switch {
 				case f != nil && (name == "RawString" || name == "RawByte" || name == "Raw" || name == "WriteByte" ||
@@ -468,7 +468,7 @@ func runR013(c *core.Ctx) {
 				default:
 					// call through a func-typed field (stringEscaper)
 					if sel, ok := core.Unparen(call.Fun).(*ast.SelectorExpr); ok {
-						if fv, ok := core.ObjOf(inf, sel).(*types.Var); ok && fv.IsField() && strings.Contains(strings.ToLower(fv.Name()), "escape") {
+						if fv, ok := core.ObjOf(inf, sel).(*types.Var); ok && fv.IsField() && strings.Contains(strings.ToLower(core.NameOf(fv)), "escape") {
 							escaped = true
 						}
 					}
@@ -532,7 +532,7 @@ func runR013(c *core.Ctx) {
 				if sel, ok := core.Unparen(call.Args[0]).(*ast.SelectorExpr); ok && sel.Sel.Name == "param" {
 					rawParam = true
 				}
-				if v, ok := core.ObjOf(inf, call.Args[0]).(*types.Var); ok && strings.HasPrefix(strings.ToLower(v.Name()), "param") {
+				if v, ok := core.ObjOf(inf, call.Args[0]).(*types.Var); ok && strings.HasPrefix(strings.ToLower(core.NameOf(v)), "param") {
 					rawParam = true
 				}
 			}
@@ -584,7 +584,7 @@ func runR014(c *core.Ctx) {
 func fieldConstsUsed(inf *types.Info, pkgPath string, n ast.Node, into map[types.Object]bool) {
 	ast.Inspect(n, func(x ast.Node) bool {
 		if id, ok := x.(*ast.Ident); ok {
-			if k, ok := inf.Uses[id].(*types.Const); ok && k.Pkg() != nil && k.Pkg().Path() == pkgPath && strings.HasSuffix(k.Name(), "Field") {
+			if k, ok := inf.Uses[id].(*types.Const); ok && k.Pkg() != nil && k.Pkg().Path() == pkgPath && strings.HasSuffix(core.NameOf(k), "Field") {
 				into[k] = true
 			}
 		}
@@ -649,12 +649,12 @@ func runR016(c *core.Ctx) {
 		var diff []string
 		for k := range s.m {
 			if !s.u[k] {
-				diff = append(diff, k.Name()+" written but never read")
+				diff = append(diff, core.NameOf(k)+" written but never read")
 			}
 		}
 		for k := range s.u {
 			if !s.m[k] {
-				diff = append(diff, k.Name()+" read but never written")
+				diff = append(diff, core.NameOf(k)+" read but never written")
 			}
 		}
 		sort.Strings(diff)
@@ -734,8 +734,8 @@ func runR017(c *core.Ctx) {
 			got := ""
 			ast.Inspect(fd.Body, func(n ast.Node) bool {
 				if call, ok := n.(*ast.CallExpr); ok {
-					if cf := core.Callee(inf, call); cf != nil && core.IsMethod(cf, jw, "Writer", cf.Name()) {
-						got = cf.Name()
+					if cf := core.Callee(inf, call); cf != nil && core.IsMethod(cf, jw, "Writer", core.NameOf(cf)) {
+						got = core.NameOf(cf)
 					}
 				}
 				return true
@@ -772,8 +772,8 @@ func runR017(c *core.Ctx) {
 			}
 			cf := core.Callee(inf, call)
 			switch {
-			case cf != nil && core.IsMethod(cf, jw, "Writer", cf.Name()) && strings.HasPrefix(cf.Name(), "Float"):
-				got = cf.Name()
+			case cf != nil && core.IsMethod(cf, jw, "Writer", core.NameOf(cf)) && strings.HasPrefix(core.NameOf(cf), "Float"):
+				got = core.NameOf(cf)
 			case cf != nil && (core.IsFunc(cf, "strconv", "FormatFloat") || core.IsFunc(cf, "strconv", "AppendFloat")):
 				a := call.Args
 				if core.NameOf(cf) == "AppendFloat" {
@@ -783,11 +783,11 @@ func runR017(c *core.Ctx) {
 				if prec != nil && bits != nil && prec.ExactString() == "-1" && bits.ExactString() == "64" {
 					got = "Float64"
 				} else {
-					got = cf.Name() + "(" + core.ExprString(a[2]) + ", " + core.ExprString(a[3]) + ")"
+					got = core.NameOf(cf) + "(" + core.ExprString(a[2]) + ", " + core.ExprString(a[3]) + ")"
 				}
 				if outer, ok := par64[call].(*ast.CallExpr); ok {
 					if sel, ok := core.Unparen(outer.Fun).(*ast.SelectorExpr); ok {
-						if fv, ok := core.ObjOf(inf, sel).(*types.Var); ok && fv.IsField() && strings.Contains(strings.ToLower(fv.Name()), "escape") {
+						if fv, ok := core.ObjOf(inf, sel).(*types.Var); ok && fv.IsField() && strings.Contains(strings.ToLower(core.NameOf(fv)), "escape") {
 							escaped = true
 						}
 					}
@@ -809,8 +809,8 @@ func runR017(c *core.Ctx) {
 		got := ""
 		ast.Inspect(fd.Body, func(n ast.Node) bool {
 			if call, ok := n.(*ast.CallExpr); ok {
-				if cf := core.Callee(inf, call); cf != nil && core.IsMethod(cf, jl, "Lexer", cf.Name()) {
-					got = cf.Name()
+				if cf := core.Callee(inf, call); cf != nil && core.IsMethod(cf, jl, "Lexer", core.NameOf(cf)) {
+					got = core.NameOf(cf)
 				}
 			}
 			return true
@@ -825,7 +825,7 @@ func runR017(c *core.Ctx) {
 		ast.Inspect(fd.Body, func(n ast.Node) bool {
 			if call, ok := n.(*ast.CallExpr); ok {
 				if cf := core.Callee(inf, call); cf != nil && cf.Pkg() != nil && cf.Pkg().Path() == "strconv" {
-					gotFn = cf.Name()
+					gotFn = core.NameOf(cf)
 					if len(call.Args) >= 2 {
 						if cv := core.ConstOf(inf, call.Args[len(call.Args)-1]); cv != nil {
 							gotBits = cv.ExactString()
@@ -891,7 +891,7 @@ func emittedConsts(inf *types.Info, fd *ast.FuncDecl) []string {
 		if f == nil {
 			return true
 		}
-		switch f.Name() {
+		switch core.NameOf(f) {
 		case "RawByte", "RawString":
 			if len(call.Args) != 1 {
 				return true
@@ -921,7 +921,7 @@ func emittedConsts(inf *types.Info, fd *ast.FuncDecl) []string {
 				}
 			}
 		case "writeMapStart", "writeMapEnd", "writeArrayStart", "writeArrayEnd", "writeKey":
-			out = append(out, "@"+f.Name())
+			out = append(out, "@"+core.NameOf(f))
 		}
 		return true
 	})
@@ -1125,9 +1125,9 @@ func runR032(c *core.Ctx) {
 				return false
 			}, nil)
 			if guardKind == str {
-				got[str] = cf.Name() + ":" + str
+				got[str] = core.NameOf(cf) + ":" + str
 			} else if _, dup := got[str]; !dup {
-				got[str] = cf.Name() + ":" + str + " under the test for " + guardKind
+				got[str] = core.NameOf(cf) + ":" + str + " under the test for " + guardKind
 			}
 			return true
 		})
@@ -1234,7 +1234,7 @@ func runR115(c *core.Ctx) {
 
 // isBytesDecoder: a package-level function of restlicodec named …Bytes with signature (string, error) ([]byte, error).
 func isBytesDecoder(c *core.Ctx, f *types.Func) bool {
-	if f == nil || !strings.HasSuffix(f.Name(), "Bytes") || f.Pkg() == nil || f.Pkg().Path() != pkgPath(c, "restlicodec") {
+	if f == nil || !strings.HasSuffix(core.NameOf(f), "Bytes") || f.Pkg() == nil || f.Pkg().Path() != pkgPath(c, "restlicodec") {
 		return false
 	}
 	sig := f.Type().(*types.Signature)
